@@ -614,9 +614,13 @@ func toDeleteNotification(n *pb.Notification, timestamp int64) *pb.Notification 
 	case n.GetAtomic():
 		d.Delete = []*pb.Path{{Elem: prefix.GetElem(), Element: prefix.GetElement()}}
 	case len(prefix.GetElem()) > 0 || len(path.GetElem()) > 0:
-		d.Delete = []*pb.Path{{Elem: append(prefix.GetElem(), path.GetElem()...)}}
+		// Copy the prefix elements: appending to the stored notification's own
+		// slice would share its backing array between delete notifications.
+		elems := append([]*pb.PathElem(nil), prefix.GetElem()...)
+		d.Delete = []*pb.Path{{Elem: append(elems, path.GetElem()...)}}
 	default:
-		d.Delete = []*pb.Path{{Element: append(prefix.GetElement(), path.GetElement()...)}}
+		elements := append([]string(nil), prefix.GetElement()...)
+		d.Delete = []*pb.Path{{Element: append(elements, path.GetElement()...)}}
 	}
 	return d
 }
